@@ -28,7 +28,10 @@ Bad(r) ==
       \* the plan recorded by the FLOX_VERIF hook ("plan" event) against the strategy the model resolves
       drift == \E i \in 1..4 : r.hascfg /\ ~(i = 4 /\ r.skipbw) /\
                  LET o == Outcome([r.cfg EXCEPT !.method = Methods[i]]) IN
-                 o.kind # r.out[i].kind \/ (o.kind = "ok" /\ r.out[i].plan \notin {"-", o.method})
+                 \/ o.kind # r.out[i].kind
+                 \/ (o.kind = "ok" /\ r.out[i].plan \notin {"-", o.method})
+                 \/ (o.kind = "ok" /\ r.out[i].engine # "-" /\ r.out[i].engine # ChooseEngine(r.cfg, r.nanskip, r.sortedlabels, r.boolfamily))
+                 \/ (o.kind = "ok" /\ r.out[i].rb # "-" /\ o.method # "eager" /\ (r.out[i].rb = "T") # o.rb)
   IN (IF clean THEN {} ELSE {"clean"}) \cup (IF auto THEN {} ELSE {"auto"}) \cup (IF expl THEN {} ELSE {"explicit"})
      \cup (IF drift THEN {"drift"} ELSE {})
 
